@@ -5,7 +5,7 @@ From Coq Require Import List Bool.
 Import ListNotations.
 
 Inductive loc := Mode | Conf.
-Inductive action := ALock | AUnlock | ARd (x : loc) | AWr (x : loc) | ALocal.
+Inductive action := ALock | AUnlock | ARd (x : loc) | AWr (x : loc) | ALocal | APort.   (* APort: a write to the emulator's port *)
 
 (* every access inside a critical section, lock balanced *)
 Fixpoint ok (h : bool) (l : list action) : bool :=
@@ -14,7 +14,7 @@ Fixpoint ok (h : bool) (l : list action) : bool :=
   | ALock :: l' => if h then false else ok true l'
   | AUnlock :: l' => if h then ok false l' else false
   | ARd _ :: l' | AWr _ :: l' => h && ok h l'
-  | ALocal :: l' => ok h l'
+  | ALocal :: l' | APort :: l' => ok h l'
   end.
 
 Fixpoint final (h : bool) (l : list action) : bool :=
@@ -49,7 +49,7 @@ Fixpoint check (s : stmt) (h : bool) : option (option bool) :=
   | Act ALock => if h then None else Some (Some true)
   | Act AUnlock => if h then Some (Some false) else None
   | Act (ARd _) | Act (AWr _) => if h then Some (Some h) else None
-  | Act ALocal => Some (Some h)
+  | Act ALocal | Act APort => Some (Some h)
   | Ret => if h then None else Some None
   | Seq a b => match check a h with
                | None => None
